@@ -35,7 +35,9 @@ STRINGS = ['""', "''", '"a"', "'a'", '"hello world"', "'it\\'s'", '"say \\"hi\\"
            '"}"', "'{'", '"</script>"',
            # characters outside the basic plane (one character of the text, two UTF-16 units, four UTF-8 bytes)
            '"\U0001F600"', "'a\U0001F600b\U00010000c'", '"\U0001D11E \U0001D11E"',
-           '"cafe\u0301"', "'re\u0301sume\u0301 \u1112\u1161\u11ab \u212b'"]
+           '"cafe\u0301"', "'re\u0301sume\u0301 \u1112\u1161\u11ab \u212b'",
+           # a backslash in front of a character that is neither an escape letter nor ASCII punctuation (NonEscapeCharacter)
+           '"\\ "', "'a\\\u00e9\\\tb'", '"\\\U0001F600\\\x7f"']
 STRINGS_CONT = ['"a\\\nb"', "'a\\\r\nb'", '"x\\\ry"', '"p\\\u2028q"', "'\\\n'",
                 # several line terminators inside one token
                 '"a\\\nb\\\nc"', "'\\\n\\\r\n\\\rx'", '"l1\\\u2029l2\\\nl3\\\r\nl4"',
